@@ -14,7 +14,7 @@ import glob
 import importlib.util
 import os
 
-from ..astutil import call_simple_name, exc_name, guard_chain, names_in, returns_of, short
+from ..astutil import call_simple_name, exc_name, guard_chain, names_in, pm, pmall, returns_of, short
 from ..cfg import cfg_of
 from ..forward import flow_of
 from ..loader import AnalysisError, ClassInfo, FunctionInfo, body_walk, norm, walk_no_nested
@@ -119,8 +119,8 @@ def rule_visitor_exhaustive(ctx):
                   file=rel, line=c.node.lineno, function=cname, expected="(STIXPatternVisitorForSTIX2, STIXPatternVisitor of %s)" % ver, found=bases)
     cp = prog.func(PV + "::create_pattern_object")
     t = norm(cp.node)
-    ok = "if version == '2.1'" in t and "visitor_class = STIXPatternVisitorForSTIX21" in t and "parser_class = STIXPatternParser21" in t \
-        and "visitor_class = STIXPatternVisitorForSTIX20" in t and "parser_class = STIXPatternParser20" in t
+    ok = pmall(t, "if version == '2.1'", "$v = STIXPatternVisitorForSTIX21", "$p = STIXPatternParser21", "$v = STIXPatternVisitorForSTIX20",
+               "$p = STIXPatternParser20", "$v($p, ") is not None
     run.check(ok, R, key(rel, cp.qualname, "version-selects-grammar"), "the requested version does not select the matching grammar classes",
               file=rel, line=cp.node.lineno, function=cp.qualname, expected="2.1 -> *21 classes, else *20", found="changed")
     run.floor(R, 60)
